@@ -37,7 +37,12 @@ class Link(Edge):
 
         self.user_libs = libs
         forward_opts = opts.ForwardOptions.recurse(self.user_libs)
-        self.libs = self.user_libs + forward_opts.libs
+        # Keep only the last occurrence of each library, so that every library
+        # comes before the libraries it depends on (single-pass linkers
+        # resolve symbols from left to right).
+        all_libs = self.user_libs + forward_opts.libs
+        self.libs = [lib for i, lib in enumerate(all_libs)
+                     if lib not in all_libs[i + 1:]]
 
         self.user_packages = packages
         self.packages = self.user_packages + forward_opts.packages
